@@ -45,7 +45,8 @@ def required_cells(tier):
             "chain-site:last": 2, "record_all:False": 5,
             "control:extended-after-use": 4,
             "chain:interleaved-additions": 3, "kind:weak": 3,
-            "chain:weak-control": 3, "route:gradient": 5,
+            "chain:weak-control": 3, "chain:stepped-manual": 3,
+            "chain:stepped-mixed": 3, "route:gradient": 5,
             "route:meanfield": 3, "post-flag:numpy.bool_": 5,
             "mix:identity-other-spec-same-step": 5,
             "control-outside-window": 5,
@@ -442,7 +443,19 @@ def run_chain(case):
     tebd = oqupy.PtTebd(oqupy.AugmentedMPS(rhos), sys_chain, pts, params,
                         chain_control=cc, dynamics_sites=record,
                         start_time=0.3)
-    res = tebd.compute(nsteps, progress_type="silent")
+    stepping = ["compute", "manual", "compute", "mixed"][(i // 2) % 4]
+    if stepping == "manual":
+        # the chain is advanced through its public single-step interface
+        tebd.initialize()
+        for _ in range(nsteps):
+            tebd.compute_step()
+        res = tebd.get_results()
+    elif stepping == "mixed":
+        tebd.initialize()
+        tebd.compute_step()
+        res = tebd.compute(nsteps, progress_type="silent")
+    else:
+        res = tebd.compute(nsteps, progress_type="silent")
     ref, norms = chain.chain_dynamics(dims, envs, rhos, nsteps, liou, dt,
                                       record, pre, post)
     noc, _ = chain.chain_dynamics(dims, envs, rhos, nsteps, liou, dt, record)
@@ -473,6 +486,8 @@ def run_chain(case):
         cells.append("chain:interleaved-additions")
     if has_weak:
         cells.append("chain:weak-control")
+    if stepping != "compute":
+        cells.append("chain:stepped-" + stepping)
     for c in desc:
         cells.append("side:" + ("post" if c["post"] else "pre"))
         cells.append(f"stack:{c['stack']}")
